@@ -48,7 +48,7 @@ pub struct Sc {
 
 pub fn runs_for(_prop: &str, tier: Tier) -> u64 {
     match tier {
-        Tier::Quick => 6144,
+        Tier::Quick => 16384,
         Tier::Thorough => 40960,
     }
 }
